@@ -45,6 +45,7 @@ type Profile struct {
 	PTopPtrRecord int  // % of top-level schemas that are Ptr(Struct) over a flat record with exported keys
 	PSiblings     int  // % of top-level structs given a catching string field whose test usually fails, next to a slice or struct field with at least two tests
 	PRewrite      int  // % of slices of strings whose item schema rewrites items in place (Catch over a failing test, Default over a zero item) under a slice test about the contents
+	PFalsy        int  // % of non-string primitive leaves given a falsy but present input (0, 0.0, false, the zero time)
 	PLongOneOf    int  // % of built-in tests on strings and numbers that are a OneOf over a long list with no custom message
 	NilBias       bool // whole inputs are re-drawn (up to 10 times) until the implementation reports no issues
 	Repeats       int  // how many times a case is re-run (with reshuffled schema insertion orders and varying pool states)
@@ -628,7 +629,8 @@ func ProfileByName(name string) Profile {
 		p.PAbsent = 45
 		p.PDefault = 35
 		p.PCatch = 10
-		p.PStructIn = 30
+		p.PStructIn = 40
+		p.PFalsy = 20
 	case "C09":
 		p.MaxFields = 4
 		p.PStruct = 40
